@@ -277,6 +277,9 @@ var c13SessInputs = []c13Input{
 	{"bad2 = macro(x) { 1 / 0 }; println(catch(bad2(3)))", false},
 	// a macro defined and used in one and the same input (the first thing some entry points ever see)
 	{"sq = macro(x) { quote(unquote(x) * unquote(x)) }; println(sq(3))", false},
+	// unquote of values computed at expansion time (an integer, a boolean)
+	{"k3 = macro(x) { quote(unquote(x) + unquote(1 + 2)) }; println(k3(4))", false},
+	{"tb = macro(x) { quote(if unquote(1 < 2) { unquote(x) } else { 0 }) }; println(tb(5))", false},
 }
 
 // model of the session
@@ -342,6 +345,10 @@ func (m *c13Model) step(i int) string {
 		return m.callHH(4)
 	case 12:
 		return "9" // defined and used in the same input, whatever the table held before
+	case 13:
+		return "7"
+	case 14:
+		return "5"
 	}
 	return ""
 }
